@@ -31,47 +31,47 @@ import (
 )
 
 type Clause struct {
-	Kind   string // requires, ensures, invariant, decreases, callreq, callcover
-	Name   string
-	Props  []string
-	Expr   *CExpr
-	Src    string
-	Anchor string // loop anchor or callee key
-	Arg    string // call-site distinguishing constant
+	Kind    string // requires, ensures, invariant, decreases, callreq, callcover
+	Name    string
+	Props   []string
+	Expr    *CExpr
+	Src     string
+	Anchor  string // loop anchor or callee key
+	Arg     string // call-site distinguishing constant
 	When    *CExpr // bind: syntactic guard a == b
-	InScope bool  // returns? : checked only at return sites where every identifier of the clause is in scope
-	File   string
-	Line   int
+	InScope bool   // returns? : checked only at return sites where every identifier of the clause is in scope
+	File    string
+	Line    int
 }
 
 type FuncContract struct {
-	Key      string
-	Assumed  bool
-	ModeBV   bool
-	NoPanic  bool
-	NoReturn bool // the function never returns normally (ends in os.Exit): no exit-reachability canary
-	Inline   bool
-	Props    []string
-	Params   []string // explicit parameter names for external functions
-	Requires []*Clause
-	Ensures  []*Clause
-	Defines  []*Clause // definitional postconditions: assumed at call sites, introduce a spec predicate as the post-image of the function
+	Key         string
+	Assumed     bool
+	ModeBV      bool
+	NoPanic     bool
+	NoReturn    bool // the function never returns normally (ends in os.Exit): no exit-reachability canary
+	Inline      bool
+	Props       []string
+	Params      []string // explicit parameter names for external functions
+	Requires    []*Clause
+	Ensures     []*Clause
+	Defines     []*Clause // definitional postconditions: assumed at call sites, introduce a spec predicate as the post-image of the function
 	PanicUnless []*Clause // the callee panics unless this holds: an obligation in nopanic callers, an assumption afterwards (execution continues only then)
-	Inits    []*Clause // assumed at entry when verifying this function only: the local ghost history starts empty
-	Returns  []*Clause // obligations at every return site, over the source variables in scope there
-	Modifies []*CExpr
-	ModSrc   []string
-	Invs     []*Clause
-	Decr     []*Clause
-	CallReqs []*Clause
-	Binds    []*Clause // call <callee> bind name = expr [when a == b]: snapshot a value right after a call, usable by later clauses
-	MapReqs  []*Clause // mapupdate <field-or-variable> requires ...: obligations at every m[k] = v on that map
-	Ghosts   []*Clause // unused
-	CallInvs []*Clause // call <callee> invariant: invariants over the repeated invocations an assumed higher-order callee makes (invoke*)
-	Steps    []*Step   // fresh / invoke steps of assumed higher-order contracts, in order
-	File     string
-	Line     int
-	Used     bool
+	Inits       []*Clause // assumed at entry when verifying this function only: the local ghost history starts empty
+	Returns     []*Clause // obligations at every return site, over the source variables in scope there
+	Modifies    []*CExpr
+	ModSrc      []string
+	Invs        []*Clause
+	Decr        []*Clause
+	CallReqs    []*Clause
+	Binds       []*Clause // call <callee> bind name = expr [when a == b]: snapshot a value right after a call, usable by later clauses
+	MapReqs     []*Clause // mapupdate <field-or-variable> requires ...: obligations at every m[k] = v on that map
+	Ghosts      []*Clause // unused
+	CallInvs    []*Clause // call <callee> invariant: invariants over the repeated invocations an assumed higher-order callee makes (invoke*)
+	Steps       []*Step   // fresh / invoke steps of assumed higher-order contracts, in order
+	File        string
+	Line        int
+	Used        bool
 }
 
 // Step of an assumed contract executed between requires and ensures.
@@ -130,29 +130,29 @@ type GhostVar struct {
 }
 
 type Census struct {
-	Name    string
-	Props   []string
-	Callee  string // callee key pattern
-	Arg     string
-	Within  []string // function keys allowed to contain such calls
-	Pkgs    []string // package-name scope (default: all repo packages)
-	File    string
-	Line    int
+	Name   string
+	Props  []string
+	Callee string // callee key pattern
+	Arg    string
+	Within []string // function keys allowed to contain such calls
+	Pkgs   []string // package-name scope (default: all repo packages)
+	File   string
+	Line   int
 }
 
 type Contracts struct {
-	Sorts   []string
-	Pures   map[string]*PureFunc
-	PureOrd []string
-	Axioms  []*Axiom
-	Ghosts  map[string]*GhostVar
+	Sorts    []string
+	Pures    map[string]*PureFunc
+	PureOrd  []string
+	Axioms   []*Axiom
+	Ghosts   map[string]*GhostVar
 	GhostOrd []string
-	Funcs   map[string]*FuncContract
-	FuncOrd []string
-	Census  []*Census
-	GFields []*GhostField
-	Guards  []*GuardedBy
-	Errors  []string
+	Funcs    map[string]*FuncContract
+	FuncOrd  []string
+	Census   []*Census
+	GFields  []*GhostField
+	Guards   []*GuardedBy
+	Errors   []string
 }
 
 func NewContracts() *Contracts {
